@@ -484,7 +484,9 @@ fn mt204() -> Model {
 
 fn mt210() -> Model {
     let base = body_of("210", ":20:REF1\n:30:250615\n:21:REL1\n:32B:EUR100,00\n:52A:BANKDEFF");
-    let dims = vec![("sequences", counts()), ("32B-currencies", ccy_patterns()), ("50a/52a-in-last", s(&["52a-only", "50a-only", "both", "neither"]))];
+    // base point = two sequences, the 50a/52a variation applied to all of them: the one-dimensional sweeps (which
+    // C13 re-uses) then hold messages in which the same rule fails in several sequences
+    let dims = vec![("sequences", s(&["2", "1", "9", "10", "11", "12"])), ("32B-currencies", ccy_patterns()), ("50a/52a", s(&["52a-only", "50a-only", "both", "neither"])), ("50a/52a-where", s(&["all", "last", "first"]))];
     let render = move |l: Labels| -> Value {
         let mut j = base.clone();
         let n: usize = l[0].parse().unwrap();
@@ -494,7 +496,7 @@ fn mt210() -> Model {
             let mut t = proto.clone();
             t["21"] = fj("Field21NoOption", &format!("REL{i}"));
             t["32B"] = fj("Field32B", &format!("{}100,", ccy_at(l[1], i, n)));
-            if i + 1 == n {
+            if (l[3] == "last" && i + 1 == n) || (l[3] == "first" && i == 0) || l[3] == "all" {
                 match l[2] {
                     "50a-only" => {
                         remove_prefix(&mut t, "52");
